@@ -4,7 +4,7 @@ use quick_xml::events::BytesStart;
 use quick_xml::tape::{self, ns, AttrName, Cell, Tape, TextEntry};
 
 static NAMES: [&[u8]; 5] = [b"", b"hello", b"capabilities", b"capability", b"session-id"];
-static TEXTS: [TextEntry; 10] = [
+static TEXTS: [TextEntry; 12] = [
     TextEntry::plain(""),
     TextEntry::plain("urn:ietf:params:netconf:base:1.0"),
     TextEntry::plain("urn:ietf:params:netconf:base:1.1"),
@@ -15,20 +15,25 @@ static TEXTS: [TextEntry; 10] = [
     TextEntry::plain("-1"),
     TextEntry::plain("x"),
     TextEntry::plain(" c "),
+    TextEntry::padded("\n  1\n", "1"),
+    TextEntry::padded("\n  urn:ietf:params:netconf:base:1.0\n", "urn:ietf:params:netconf:base:1.0"),
 ];
 static ATTRS: [AttrName; 1] = [AttrName { qname: b"x", local: b"x", ns: ns::UNBOUND }];
 
 const B: u8 = ns::BASE;
 
-/// Summary of `<Capability as FromStr>::from_str` for the two capability texts of this harness
-/// (identified by pointer: they are the table's `&'static str`s); the real function — URI
-/// validation by iri-string plus the component match — is checked on concrete URIs in
-/// `c12_capability_from_str`.
+/// Summary of `<Capability as FromStr>::from_str` for the capability texts of this table (by
+/// content); the real function — URI validation by iri-string plus the component match — is
+/// checked on concrete URIs in `c12_capability_from_str`.
 pub fn stub_capability_from_str(s: &str) -> Result<Capability, ReadError> {
-    if std::ptr::eq(s.as_ptr(), TEXTS[1].raw.as_ptr()) {
+    if s == "urn:ietf:params:netconf:base:1.0" {
         Ok(Capability::Base(Base::V1_0))
-    } else if std::ptr::eq(s.as_ptr(), TEXTS[2].raw.as_ptr()) {
+    } else if s == "urn:ietf:params:netconf:base:1.1" {
         Ok(Capability::Base(Base::V1_1))
+    } else if s.as_bytes().first().map_or(true, |b| b.is_ascii_whitespace()) {
+        // not a URI (the real function: `ParseCapability`, confirmed with the real crate for the
+        // padded text of this table)
+        Err(ReadError::NoMessageId)
     } else {
         Ok(Capability::Candidate)
     }
@@ -222,31 +227,43 @@ fn c12_server_hello_missing_parts() {
 #[kani::stub(<crate::capabilities::Capability as std::str::FromStr>::from_str, stub_capability_from_str)]
 fn c12_capabilities_reader() {
     tape::set_tables(&NAMES, &TEXTS, &ATTRS);
-    let b10: bool = kani::any();
-    let b11: bool = kani::any();
-    let w = child_window(2, 3, b10, b11);
-    let mut t = Tape::EMPTY;
-    let mut j = 1;
-    while j < 8 {
-        t.push(w[j]);
-        j += 1;
-    }
-    tape::register(0, t);
-    let mut reader = NsReader::from_str(tape::input_for(0));
-    let _ = reader.trim_text(true);
-    let start = BytesStart::from_id(2);
-    let res = Capabilities::read_xml(&mut reader, &start);
-    match &res {
-        Ok(caps) => {
-            let has10 = caps.iter().any(|c| matches!(c, Capability::Base(Base::V1_0)));
-            let has11 = caps.iter().any(|c| matches!(c, Capability::Base(Base::V1_1)));
-            assert!(has10 == b10 && has11 == b11, "C12 hello: capabilities read differ from the hello's");
-            assert!(caps.iter().count() == b10 as usize + b11 as usize, "C12 hello: a capability was invented or duplicated");
+    // the four subsets are walked by a concrete loop (element structure enumerated, see
+    // DESIGN.md 9.6); what stays symbolic is every branch of the reader and of the set
+    // insertion that does not fold
+    let mut k = 0u8;
+    while k < 4 {
+        let b10 = k & 1 != 0;
+        let b11 = k & 2 != 0;
+        let mut t = Tape::EMPTY;
+        if b10 {
+            t.push(Cell::start(B, 3));
+            t.push(Cell::text(1));
+            t.push(Cell::end(B, 3));
         }
-        Err(_) => assert!(false, "C12 hello: a well-formed <capabilities> was rejected"),
+        if b11 {
+            t.push(Cell::start(B, 3));
+            t.push(Cell::text(2));
+            t.push(Cell::end(B, 3));
+        }
+        t.push(Cell::end(B, 2));
+        tape::register(0, t);
+        let mut reader = NsReader::from_str(tape::input_for(0));
+        let _ = reader.trim_text(true);
+        let start = BytesStart::from_id(2);
+        let res = Capabilities::read_xml(&mut reader, &start);
+        match &res {
+            Ok(caps) => {
+                let has10 = caps.iter().any(|c| matches!(c, Capability::Base(Base::V1_0)));
+                let has11 = caps.iter().any(|c| matches!(c, Capability::Base(Base::V1_1)));
+                assert!(has10 == b10 && has11 == b11, "C12 hello: capabilities read differ from the hello's");
+                assert!(caps.iter().count() == b10 as usize + b11 as usize, "C12 hello: a capability was invented or duplicated");
+            }
+            Err(_) => assert!(false, "C12 hello: a well-formed <capabilities> was rejected"),
+        }
+        std::mem::forget(res);
+        k += 1;
     }
-    kani::cover!(b10 && b11 && res.is_ok(), "both base versions read");
-    std::mem::forget(res);
+    kani::cover!(true, "all four subsets read");
 }
 
 /// C12, element sequences enumerated, leaf values symbolic (see `for_each_sequence` in
@@ -308,7 +325,7 @@ hello_sequence_harnesses!(
 fn hello_layout(kinds: [u8; 3], sid_text: u8) -> bool {
     tape::set_tables(&NAMES, &TEXTS, &ATTRS);
     let mut t = Tape::EMPTY;
-    let mut caps_present = false;
+    let mut caps_count = 0u8;
     let mut sid_count = 0u8;
     let mut i = 0;
     while i < 3 {
@@ -325,12 +342,13 @@ fn hello_layout(kinds: [u8; 3], sid_text: u8) -> bool {
                 t.push(Cell::text(1));
                 t.push(Cell::end(B, 3));
                 t.push(Cell::end(B, 2));
-                caps_present = true;
+                caps_count += 1;
             }
             _ => {}
         }
         i += 1;
     }
+    let caps_present = caps_count == 1;
     t.push(Cell::end(B, 1));
     tape::register(0, t);
     let mut reader = NsReader::from_str(tape::input_for(0));
@@ -340,14 +358,12 @@ fn hello_layout(kinds: [u8; 3], sid_text: u8) -> bool {
     let valid_id = sid_text == 3 || sid_text == 4;
     match &res {
         Ok(h) => {
-            assert!(caps_present, "C12 hello: accepted without <capabilities>");
+            assert!(caps_present, "C12 hello: accepted without exactly one <capabilities>");
             assert!(sid_count == 1, "C12 hello: accepted with a missing or duplicated <session-id>");
             assert!(valid_id, "C12 hello: accepted with an invalid session-id (zero, out of range, negative or not a number)");
             let want: u32 = if sid_text == 3 { 1 } else { 4294967295 };
             assert!(h.session_id() == SessionId::new(want).unwrap(), "C12 hello: reported session-id differs from the hello's");
-            let has10 = h.capabilities.iter().any(|c| matches!(c, Capability::Base(Base::V1_0)));
-            let n = h.capabilities.iter().count();
-            assert!(has10 && n == 1, "C12 hello: reported capabilities differ from the hello's");
+            // (the capability set is the summarised reader's; its content is c12_capabilities_reader's subject)
         }
         Err(_) => {
             assert!(!(caps_present && sid_count == 1 && valid_id), "C12 hello: a well-formed hello with a valid session-id was rejected");
@@ -356,4 +372,124 @@ fn hello_layout(kinds: [u8; 3], sid_text: u8) -> bool {
     let ok = res.is_ok();
     std::mem::forget(res);
     ok
+}
+
+/// C13 (comments, hello): a comment before or after a `<capability>` inside `<capabilities>`
+/// does not change what `Capabilities::read_xml` makes of the element.
+#[kani::proof]
+#[kani::unwind(10)]
+#[kani::stub(<crate::capabilities::Capability as std::str::FromStr>::from_str, stub_capability_from_str)]
+fn c13_capabilities_comment_insertion() {
+    tape::set_tables(&NAMES, &TEXTS, &ATTRS);
+    let cap: [Cell; 3] = [Cell::start(B, 3), Cell::text(1), Cell::end(B, 3)];
+    let comment = Cell::comment(9);
+    // outcome: 0 = Ok with exactly {:base:1.0}, 1 = Ok with something else, 2 = Err
+    let mut code = [0u8; 3];
+    let mut v = 0;
+    while v < 3 {
+        let mut t = Tape::EMPTY;
+        if v == 1 {
+            t.push(comment);
+        }
+        t.push(cap[0]);
+        t.push(cap[1]);
+        t.push(cap[2]);
+        if v == 2 {
+            t.push(comment);
+        }
+        t.push(Cell::end(B, 2));
+        tape::register(0, t);
+        let mut reader = NsReader::from_str(tape::input_for(0));
+        let _ = reader.trim_text(true);
+        let start = BytesStart::from_id(2);
+        let res = Capabilities::read_xml(&mut reader, &start);
+        code[v] = match &res {
+            Ok(caps) => {
+                if caps.iter().count() == 1 && caps.iter().any(|c| matches!(c, Capability::Base(Base::V1_0))) {
+                    0
+                } else {
+                    1
+                }
+            }
+            Err(_) => 2,
+        };
+        std::mem::forget(res);
+        v += 1;
+    }
+    assert!(code[0] == 0, "C13 capabilities: the plain element is not read as {:base:1.0}");
+    assert!(code[1] == code[0], "C13 capabilities: a comment before a <capability> changes the outcome");
+    assert!(code[2] == code[0], "C13 capabilities: a comment after a <capability> changes the outcome");
+    kani::cover!(true, "three readings completed");
+}
+
+/// C13 (whitespace around token-valued text, hello, part 1): a `<session-id>` whose text is
+/// surrounded by whitespace (a pretty-printing server) is read like the compact form
+/// (`Capabilities::read_xml` summarised).
+#[kani::proof]
+#[kani::unwind(10)]
+#[kani::stub(<crate::capabilities::Capabilities as crate::message::ReadXml>::read_xml, stub_capabilities_read_xml)]
+fn c13_session_id_whitespace() {
+    tape::set_tables(&NAMES, &TEXTS, &ATTRS);
+    const SID_TEXTS: [u8; 2] = [3, 10];
+    let mut ok = [false; 2];
+    let mut v = 0;
+    while v < 2 {
+        let mut t = Tape::EMPTY;
+        t.push(Cell::start(B, 2));
+        t.push(Cell::start(B, 3));
+        t.push(Cell::text(1));
+        t.push(Cell::end(B, 3));
+        t.push(Cell::end(B, 2));
+        t.push(Cell::start(B, 4));
+        t.push(Cell::text(SID_TEXTS[v]));
+        t.push(Cell::end(B, 4));
+        t.push(Cell::end(B, 1));
+        tape::register(0, t);
+        let mut reader = NsReader::from_str(tape::input_for(0));
+        let _ = reader.trim_text(true);
+        let start = BytesStart::from_id(1);
+        let res = ServerHello::read_xml(&mut reader, &start);
+        ok[v] = match &res {
+            Ok(h) => h.session_id() == SessionId::new(1).unwrap(),
+            Err(_) => false,
+        };
+        std::mem::forget(res);
+        v += 1;
+    }
+    assert!(ok[0], "C13 hello: the compact hello is not read as session 1");
+    assert!(ok[1], "C13 hello: whitespace around the session-id text changes the outcome");
+    kani::cover!(true, "both readings completed");
+}
+
+/// C13 (whitespace around token-valued text, hello, part 2): a `<capability>` whose URI is
+/// surrounded by whitespace is read like the compact form.
+#[kani::proof]
+#[kani::unwind(10)]
+#[kani::stub(<crate::capabilities::Capability as std::str::FromStr>::from_str, stub_capability_from_str)]
+fn c13_capability_whitespace() {
+    tape::set_tables(&NAMES, &TEXTS, &ATTRS);
+    const CAP_TEXTS: [u8; 2] = [1, 11];
+    let mut ok = [false; 2];
+    let mut v = 0;
+    while v < 2 {
+        let mut t = Tape::EMPTY;
+        t.push(Cell::start(B, 3));
+        t.push(Cell::text(CAP_TEXTS[v]));
+        t.push(Cell::end(B, 3));
+        t.push(Cell::end(B, 2));
+        tape::register(0, t);
+        let mut reader = NsReader::from_str(tape::input_for(0));
+        let _ = reader.trim_text(true);
+        let start = BytesStart::from_id(2);
+        let res = Capabilities::read_xml(&mut reader, &start);
+        ok[v] = match &res {
+            Ok(caps) => caps.iter().count() == 1 && caps.iter().any(|c| matches!(c, Capability::Base(Base::V1_0))),
+            Err(_) => false,
+        };
+        std::mem::forget(res);
+        v += 1;
+    }
+    assert!(ok[0], "C13 capabilities: the compact element is not read as {:base:1.0}");
+    assert!(ok[1], "C13 capabilities: whitespace around a capability URI changes the outcome");
+    kani::cover!(true, "both readings completed");
 }
